@@ -650,17 +650,32 @@ func runObservation(mp *onnx.ModelProto, m *gonnx.Model, weights map[string]*val
 	mustFail := ""
 	var failTP *onnx.TensorProto
 	unspecified := false
+	cosSeen := false
 	for k, v := range weights {
 		expect[k] = v
 	}
+	fills := map[string]*val.V{} // ConstantOfShape outputs: every element must be this one-element value
 	for _, n := range g.GetNode() {
-		if n.GetOpType() != "Constant" || len(n.GetAttribute()) != 1 || n.GetAttribute()[0].GetName() != "value" || len(n.GetOutput()) != 1 {
+		isCOS := n.GetOpType() == "ConstantOfShape"
+		if (n.GetOpType() != "Constant" && !isCOS) || len(n.GetAttribute()) != 1 || n.GetAttribute()[0].GetName() != "value" || len(n.GetOutput()) != 1 {
+			return nil
+		}
+		if isCOS && (len(n.GetInput()) != 1 || !inits[n.GetInput()[0]]) {
 			return nil
 		}
 		tp := n.GetAttribute()[0].GetT()
 		v, cl, why := refdec.Decode(tp)
 		switch cl {
 		case refdec.WellFormed:
+			if isCOS {
+				// whether the operator supports this element type, or tensors with more than one element, is not
+				// C12's business; what it must not do is fill with another value or another type
+				if len(v.Bits) == 1 {
+					fills[n.GetOutput()[0]] = v
+				}
+				cosSeen = true
+				continue
+			}
 			expect[n.GetOutput()[0]] = v
 		case refdec.Unspecified:
 			unspecified = true
@@ -693,8 +708,24 @@ func runObservation(mp *onnx.ModelProto, m *gonnx.Model, weights map[string]*val
 		return nil
 	}
 	if ro.kind == "error" {
-		// outputs that do not exist etc. are not C12's business
+		// outputs that do not exist, element types ConstantOfShape does not support etc. are not C12's business
 		return nil
+	}
+	_ = cosSeen
+	for _, vi := range g.GetOutput() {
+		fill, ok := fills[vi.GetName()]
+		if !ok {
+			continue
+		}
+		got := val.Snap(res[vi.GetName()])
+		// The operator computes 0 + value (so -0 becomes +0 and NaN payloads may change): the values are C11's
+		// business. What C12 demands of the stored tensor is its element type.
+		if got == nil || got.Bad != "" || got.DT != fill.DT {
+			return []verdict{{sig: fmt.Sprintf("constant-of-shape-wrong-type:%s", fill.DT), what: fmt.Sprintf("ConstantOfShape output %q: stored fill value %s, returned %s", vi.GetName(), fill, got)}}
+		}
+		if st != nil {
+			st.Probe("constant_of_shape_fill_exact")
+		}
 	}
 	for _, vi := range g.GetOutput() {
 		want, ok := expect[vi.GetName()]
